@@ -15,13 +15,27 @@
 #include <stdlib.h>
 #include <string.h>
 #include <errno.h>
+#include <pthread.h>
 
 #define MAX_EVENTS 64
 
+/* A completion posted by a worker thread. An eventfd is a counter: concurrent
+ * writes are added up, so it can only say "something is pending", never carry a
+ * payload. Completions are therefore queued here and the eventfd merely wakes
+ * the waiter. */
+typedef struct pending_completion_s {
+    uintptr_t key;
+    uintptr_t data;
+} pending_completion_t;
+
 struct async_runtime_s {
     int epoll_fd;
-    int event_fd;  /* For worker completions */
+    int event_fd;  /* Wakes epoll_wait() when completions are pending or wakeup is requested */
     console_type_t console_type;  /* Detected console type */
+    pthread_mutex_t pending_lock;
+    pending_completion_t* pending;  /* FIFO of posted completions */
+    size_t pending_count;
+    size_t pending_capacity;
 };
 
 /* Helper functions */
@@ -53,6 +67,7 @@ async_runtime_t* async_runtime_init(void) {
         free(runtime);
         return NULL;
     }
+    pthread_mutex_init(&runtime->pending_lock, NULL);
     
     /* Create eventfd for worker notifications */
     runtime->event_fd = eventfd(0, EFD_NONBLOCK);
@@ -87,6 +102,8 @@ void async_runtime_deinit(async_runtime_t* runtime) {
         close(runtime->epoll_fd);
     }
     
+    pthread_mutex_destroy(&runtime->pending_lock);
+    free(runtime->pending);
     free(runtime);
 }
 
@@ -148,19 +165,31 @@ int async_runtime_wait(async_runtime_t* runtime, io_event_t* events,
     for (int i = 0; i < result && event_count < max_events; i++) {
         /* Check if this is the eventfd */
         if (epoll_events[i].data.fd == runtime->event_fd) {
-            /* Drain eventfd and decode worker completions */
+            /* Reset the wake-up counter, then hand out the queued completions */
             uint64_t val;
-            while (read(runtime->event_fd, &val, sizeof(val)) == sizeof(val)) {
-                if (event_count < max_events) {
-                    events[event_count].fd = -1;
-                    events[event_count].completion_key = (uintptr_t)(val >> 32);
-                    events[event_count].context = NULL;
-                    events[event_count].event_type = EVENT_READ;
-                    events[event_count].bytes_transferred = (int)(val & 0xFFFFFFFF);
-                    events[event_count].buffer = NULL;
-                    event_count++;
-                }
+            size_t taken = 0;
+            while (read(runtime->event_fd, &val, sizeof(val)) == sizeof(val))
+                ;
+            pthread_mutex_lock(&runtime->pending_lock);
+            while (taken < runtime->pending_count && event_count < max_events) {
+                events[event_count].fd = -1;
+                events[event_count].completion_key = runtime->pending[taken].key;
+                events[event_count].context = NULL;
+                events[event_count].event_type = EVENT_READ;
+                events[event_count].bytes_transferred = runtime->pending[taken].data;
+                events[event_count].buffer = NULL;
+                event_count++;
+                taken++;
             }
+            runtime->pending_count -= taken;
+            if (runtime->pending_count > 0) {
+                /* no room in this batch: keep the rest and wake up again at once */
+                memmove(runtime->pending, runtime->pending + taken,
+                        runtime->pending_count * sizeof(pending_completion_t));
+                val = 1;
+                if (write(runtime->event_fd, &val, sizeof(val)) < 0) { /* counter saturated: still readable */ }
+            }
+            pthread_mutex_unlock(&runtime->pending_lock);
         } else {
             /* Regular I/O event */
             events[event_count].fd = epoll_events[i].data.fd;
@@ -179,8 +208,24 @@ int async_runtime_wait(async_runtime_t* runtime, io_event_t* events,
 int async_runtime_post_completion(async_runtime_t* runtime, uintptr_t completion_key, uintptr_t data) {
     if (!runtime || runtime->event_fd < 0) return -1;
     
-    /* Write to eventfd to wake up epoll_wait */
-    uint64_t val = (((uint64_t)completion_key) << 32) | (data & 0xFFFFFFFF);
+    /* Queue the completion, then write to eventfd to wake up epoll_wait */
+    pthread_mutex_lock(&runtime->pending_lock);
+    if (runtime->pending_count == runtime->pending_capacity) {
+        size_t capacity = runtime->pending_capacity ? runtime->pending_capacity * 2 : 16;
+        pending_completion_t* grown = realloc(runtime->pending, capacity * sizeof(pending_completion_t));
+        if (!grown) {
+            pthread_mutex_unlock(&runtime->pending_lock);
+            return -1;
+        }
+        runtime->pending = grown;
+        runtime->pending_capacity = capacity;
+    }
+    runtime->pending[runtime->pending_count].key = completion_key;
+    runtime->pending[runtime->pending_count].data = data;
+    runtime->pending_count++;
+    pthread_mutex_unlock(&runtime->pending_lock);
+
+    uint64_t val = 1;
     ssize_t n = write(runtime->event_fd, &val, sizeof(val));
     
     return (n == sizeof(val)) ? 0 : -1;
